@@ -2,16 +2,19 @@
 import itertools
 import sys
 
-from mc import core, lib
+from mc import core, hist, lib
 
 ENGINE = "E1-sweep"
 RULE = ("all well-formed sequences (<=2 notes over the full lattice, 3 (4 thorough) over a reduced one, with 0-2 signature "
         "events and trailing-rest variants, built through either representation) x every argument value: pad n in "
         "{0,d-1,d,d+1,2d}, cutoff all (m,r) with r<=m over {1,2,4,6}, scale k in 1..8, channel in {0,1,5,15}; "
-        "predictions from a plain list model through BOTH views; non-trivial = the operation changes something")
+        "predictions from a plain list model through BOTH views; plus the same operations on live objects reached through "
+        "EVERY history of depth <= 2 over 25 legal history operations (queries, pads, scaling, edits through the generators, "
+        "concatenation that aliases message objects) from 3 seeds x 2 builds, expectation computed from the content read "
+        "back just before the operation; non-trivial = the operation changes something")
 ASSUMPTIONS = ["scale is exercised with quantise_afterwards=False (the pure operation)",
                "cut-off: the total duration is not part of the statement and is not compared"]
-REQUIRED_FLAGS = ["pad_extends", "pad_noop_below", "cutoff_shortens", "cutoff_equal_length_kept", "scale_gt1",
+REQUIRED_FLAGS = ["after_history", "aliased_messages_inside_sequence", "pad_extends", "pad_noop_below", "cutoff_shortens", "cutoff_equal_length_kept", "scale_gt1",
                   "channel_changed", "signature_event_present", "trailing_rest"]
 
 PITCH_VARIANTS = [60, 21, 107, 64]
@@ -51,6 +54,7 @@ def units(ctx):
     if ctx["tier"] != "quick":
         for i in range(len(red)):
             yield ("quads", i)
+    yield from hist.hist_units()
 
 
 def _mk(notes):
@@ -74,9 +78,17 @@ def _emit(notes, events, build, trailing=(False, True), ops=None):
             yield {"notes": notes, "events": events, "dur": dur, "build": build, "op": op}
 
 
+HIST_ARGS = [["pad", "d+5"], ["pad", "2d"], ["cutoff", 4, 2], ["cutoff", 12, 6], ["cutoff", 48, 24], ["scale", 3], ["chan", 5]]
+
+
 def gen_cases(unit, ctx):
     p, (c0, c1) = ctx["p"], ctx["ch"]
     kind = unit[0]
+    if kind == "hist":
+        for h in hist.hist_of_unit(unit):
+            for op in HIST_ARGS:
+                yield {"seed": unit[1], "build": unit[2], "hist": h, "op": op}
+        return
     if kind == "single":
         yield from _emit([], [], "abs", (True,))
         for o in range(0, 8):
@@ -116,8 +128,30 @@ def gen_cases(unit, ctx):
 
 def check_case(case, ctx):
     R = core.Res()
-    notes, events, dur, build, op = case["notes"], case["events"], case["dur"], case["build"], case["op"]
-    s = (lib.seq_abs if build == "abs" else lib.seq_rel)(notes, events, dur)
+    op = list(case["op"])
+    if "hist" in case:
+        # a live object reached through a history of public operations; the expectation is computed from the
+        # content read back through the public views just before the operation under test
+        s = hist.build_seed(hist.seed_descs(ctx["p"], *ctx["ch"])[case["seed"]], case["build"])
+        try:
+            hist.apply(s, case["hist"], {"hp": ctx["p"] - 20})
+        except Exception as e:  # noqa: BLE001
+            R.outcome = "history_raises:" + type(e).__name__
+            return R
+        d = hist.observe_desc(s)
+        if d is None:
+            R.outcome = "history_leaves_unobservable_state"
+            return R
+        notes, events, dur = [list(n) for n in d[0]], d[1], d[2]
+        if op[0] == "pad":
+            op[1] = dur + 5 if op[1] == "d+5" else 2 * dur
+        R.flags.append("after_history")
+        if "concat_alias" in case["hist"]:
+            R.flags.append("aliased_messages_inside_sequence")
+        build = case["build"]
+    else:
+        notes, events, dur, build = case["notes"], case["events"], case["dur"], case["build"]
+        s = (lib.seq_abs if build == "abs" else lib.seq_rel)(notes, events, dur)
     before = lib.obs(s)
     if before["abs"] != before["rel"]:
         raise core.HarnessError(f"generated input views disagree: {case}")
